@@ -50,6 +50,10 @@ class Model(LogicType.Model[Meta.values]):
     def finish(self):
         self._check_not_finished()
         self._complete_frames()
+        # let the access relation add its worlds first, so that they are completed too
+        self.R.enforce()
+        self._is_frame_complete = False
+        self._complete_frames()
         for w, frame in self.frames.items():
             self._close_identity(w)
             for pred in deque(frame.predicates):
